@@ -7,7 +7,8 @@ Definition parent_ok (U : list blk) (st : state) (b : blk) : Prop :=
 
 (* the invariant at quiescent points; the witness is the longest chain, tip first *)
 Definition InvW (c : cfg) (U : list blk) (st : state) (lcr : list blk) : Prop :=
-  WInv c U st lcr 0 /\ (ring_empty st = true -> blocks st = []).
+  WInv c U st lcr 0 /\ (ring_empty st = true -> blocks st = [])
+  /\ last_id st = tip_id lcr /\ last_hash st = tip_hash lcr.
 Definition Inv (c : cfg) (U : list blk) (st : state) : Prop := exists lcr, InvW c U st lcr.
 
 (* what one call of add_block does in the main (non-trivial) case: the candidate
@@ -36,9 +37,7 @@ Record main_case (c : cfg) (U : list blk) (st : state) (lcr : list blk) (b : blk
               then if fork_choice c st lcr b newtl oldb && negb (cand_valid st b newtl) then None else Some b
               else sget (blocks st) h;
   m_steps : if fork_choice c st lcr b newtl oldb
-            then wsteps st' <= 2 * (Nlen (b :: newtl) + Nlen oldb) else wsteps st' = wsteps st;
-  m_last : last_id st <= last_id st'
-           /\ (fork_choice c st lcr b newtl oldb && cand_valid st b newtl = true -> b_id b <= last_id st')
+            then wsteps st' <= 2 * (Nlen (b :: newtl) + Nlen oldb) else wsteps st' = wsteps st
 }.
 
 Section Main.
@@ -62,7 +61,7 @@ Section Main.
            /\ (blocks st = [] -> ring_empty st = true \/ b_prev b = 0 \/ snd c = false)
            /\ exists newtl oldb common, main_case c U st lcr b st' r newtl oldb common)).
   Proof.
-    intros [W Hre] Hb Hpo.
+    intros (W & Hre & Hla1 & Hla2) Hb Hpo.
     pose proof (u_id _ _ HU b Hb) as Hid.
     pose proof (add_block_unfold c st b) as Eadd.
     replace (2 * gp_of c <? b_id b) with false in Eadd by (symmetry; apply N.ltb_ge; lia).
@@ -101,11 +100,14 @@ Section Main.
         unfold add_tail in Eadd. cbn [tip_hash] in Eadd.
         rewrite (add_chains_A c U HU st b W Hb Hbl Hroot) in Eadd. cbn [bind] in Eadd.
         destruct (add_finish_ok c U HU HWF (inserted c st b) b [] [] [] W2 Hb G2 Hx) as
-          (st' & r & Ef & Rf & Er & Wf & Sf & Tf & Lf & Lbf).
+          (st' & r & Ef & Rf & Er & Wf & Sf & Tf & Lf1 & Lf2).
         { intros y [<-|[]]. now rewrite sget_inserted, N.eqb_refl. }
         { cbn [linked_dn link_to app]. auto. }
         { right. auto. }
         { exact Hnc2. }
+        { exact Hla1. }
+        { exact Hla2. }
+        { reflexivity. }
         change (hashes [b]) with [b_hash b] in Ef. change (hashes []) with (@nil N) in Ef.
         exists st', r. split; [now rewrite Eadd|]. right; right. split; [reflexivity|]. split.
         { intros _. destruct (ring_empty st); [now left|]. cbn [negb andb] in Econd.
@@ -121,14 +123,13 @@ Section Main.
         * rewrite Hbl. cbn [length]. lia.
         * rewrite Eadd. reflexivity.
         * exact Er.
-        * split; [|intros Hr'; congruence].
-          unfold fork_choice, cand_valid. cbn [inserted ring_empty] in Wf. exact Wf.
+        * unfold fork_choice, cand_valid. cbn [inserted ring_empty] in Wf, Lf1, Lf2.
+          split; [exact Wf|]. split; [intros Hr'; congruence|]. split; [exact Lf1|exact Lf2].
         * intros h. rewrite Sf, sget_inserted. unfold fork_choice, cand_valid. cbn [inserted ring_empty].
           destruct (h =? b_hash b); cbn [andb]; [|reflexivity].
           match goal with |- (if ?a && negb ?b then _ else _) = _ => destruct (a && negb b) end; reflexivity.
         * unfold fork_choice. cbn [inserted ring_empty wsteps] in Tf. unfold Nlen, hashes in *.
           rewrite !map_length in Tf. exact Tf.
-        * unfold fork_choice, cand_valid. cbn [inserted ring_empty last_id] in Lf, Lbf. auto.
     - (* parent stored *)
       destruct (get_block st (b_prev b)) as [sbp|] eqn:Gp; [|contradiction].
       rewrite andb_false_r in Eadd. cbn [andb] in Eadd.
@@ -140,7 +141,7 @@ Section Main.
       { intros Hbl. unfold get_block in Gp. rewrite Hbl in Gp. discriminate. }
       rewrite E in W2, Hx.
       destruct (add_finish_ok c U HU HWF (inserted c st b) b newtl above (s :: below) W2 Hb G2 Hx) as
-        (st' & r & Ef & Rf & Er & Wf & Sf & Tf & Lf & Lbf).
+        (st' & r & Ef & Rf & Er & Wf & Sf & Tf & Lf1 & Lf2).
       { intros y [<-|Hy]; [now rewrite sget_inserted, N.eqb_refl|].
         destruct (Hst y Hy) as [Hs _]. rewrite sget_inserted.
         destruct (N.eqb_spec (b_hash y) (b_hash b)) as [Ey|_]; [|exact Hs].
@@ -149,6 +150,9 @@ Section Main.
       { left. split; [discriminate|]. unfold get_block, inserted; cbn [blocks]. rewrite aget_aset.
         destruct (b_prev b =? b_hash b); [discriminate|]. unfold get_block in Gp. now rewrite Gp. }
       { exact Hnc2. }
+      { rewrite <- E. exact Hla1. }
+      { rewrite <- E. exact Hla2. }
+      { intros Hr0. exfalso. apply Hbl. apply Hre. exact Hr0. }
       exists st', r. split; [now rewrite Eadd|]. right; right. split; [reflexivity|].
       split; [intros; contradiction|].
       exists newtl, above, (s :: below). rewrite Hgt, <- E in *. split.
@@ -160,14 +164,13 @@ Section Main.
       * exact Hlen.
       * rewrite Eadd. reflexivity.
       * exact Er.
-      * split; [|intros Hr'; congruence].
-        unfold fork_choice, cand_valid. cbn [inserted ring_empty] in Wf. exact Wf.
+      * unfold fork_choice, cand_valid. cbn [inserted ring_empty] in Wf, Lf1, Lf2.
+        split; [exact Wf|]. split; [intros Hr'; congruence|]. split; [exact Lf1|exact Lf2].
       * intros h. rewrite Sf, sget_inserted. unfold fork_choice, cand_valid. cbn [inserted ring_empty].
         destruct (h =? b_hash b); cbn [andb]; [|reflexivity].
         match goal with |- (if ?a && negb ?b then _ else _) = _ => destruct (a && negb b) end; reflexivity.
       * unfold fork_choice. cbn [inserted ring_empty wsteps] in Tf. unfold Nlen, hashes in *.
         rewrite !map_length in Tf. exact Tf.
-      * unfold fork_choice, cand_valid. cbn [inserted ring_empty last_id] in Lf, Lbf. auto.
   Qed.
 
   (* ================================================================== *)
@@ -181,7 +184,7 @@ Section Main.
 
   Theorem inv_init : InvW c U (init c) [].
   Proof.
-    split; [|reflexivity]. split.
+    split; [|repeat split]. split.
     - split; [constructor|]. intros h b H. discriminate.
     - exact I.
     - intros b [].
@@ -276,6 +279,7 @@ Section Main.
     /\ utxo st = fold_left apply_block lc []
     /\ (forall id h, lc_hash_at c (ring st) id = Some h <-> chain_index lc id h)
     /\ latest_id st = Ok (tip_id lcr) /\ latest_hash st = Ok (tip_hash lcr)
+    /\ last_id st = tip_id lcr /\ last_hash st = tip_hash lcr
     /\ (forall h sb, get_block st h = Some sb ->
           In (h, b_id (s_b sb)) (ri_ent (item_at (ring st) (slot c (b_id (s_b sb))))))
     /\ (forall p e, (p < nslots c)%nat -> In e (ri_ent (item_at (ring st) p)) ->
@@ -283,7 +287,7 @@ Section Main.
     /\ (forall p, (p < nslots c)%nat -> NoDup (map fst (ri_ent (item_at (ring st) p))))
     /\ length (ring st) = nslots c.
   Proof.
-    intros [W _] Hgp lc. pose proof (w_ring _ _ _ _ _ W) as Hr.
+    intros (W & _ & Hla1 & Hla2) Hgp lc. pose proof (w_ring _ _ _ _ _ W) as Hr.
     split; [apply (w_chain _ _ _ _ _ W)|].
     split; [intros b Hb; apply (w_lc _ _ _ _ _ W); now apply in_rev|].
     split.
@@ -300,6 +304,7 @@ Section Main.
         [now apply -> in_rev|now apply in_rev]. }
     split; [apply (latest_id_spec c U HU _ _ _ W)|].
     split; [apply (latest_hash_spec c U HU _ _ _ W)|].
+    split; [exact Hla1|]. split; [exact Hla2|].
     split.
     { intros h sb G. apply (r_complete _ _ _ _ _ Hr). apply (get_sget _ _ _ G). }
     split.
@@ -314,7 +319,8 @@ Section Main.
   Definition obs_eq (st st' : state) : Prop :=
     blocks st' = blocks st /\ utxo st' = utxo st
     /\ (forall id, lc_hash_at c (ring st') id = lc_hash_at c (ring st) id)
-    /\ latest_id st' = latest_id st /\ latest_hash st' = latest_hash st.
+    /\ latest_id st' = latest_id st /\ latest_hash st' = latest_hash st
+    /\ last_id st' = last_id st /\ last_hash st' = last_hash st.
 
   Lemma obs_eq_refl st : obs_eq st st.
   Proof. repeat split. Qed.
@@ -322,7 +328,7 @@ Section Main.
   Lemma obs_same_chain st st' lcr : 1 <= 2 * gp_of c ->
     InvW c U st lcr -> InvW c U st' lcr -> same_store (blocks st) (blocks st') -> obs_eq st st'.
   Proof.
-    intros Hgp [W _] [W' _] Hss. split.
+    intros Hgp (W & _ & La1 & La2) (W' & _ & Lb1 & Lb2) Hss. split.
     { apply asorted_ext; [apply (w_store _ _ _ _ _ W')|apply (w_store _ _ _ _ _ W)|].
       intros k. pose proof (Hss k) as Ek. unfold sget in Ek.
       destruct (aget k (blocks st)) as [sb|] eqn:G, (aget k (blocks st')) as [sb'|] eqn:G';
@@ -341,9 +347,9 @@ Section Main.
                  (w_chain _ _ _ _ _ W') (w_lc_sget c U _ _ _ W') Hgp).
       now rewrite (lc_hash_at_spec c U HU _ _ _ lcr id (w_store _ _ _ _ _ W) (w_ring _ _ _ _ _ W)
                  (w_chain _ _ _ _ _ W) (w_lc_sget c U _ _ _ W) Hgp). }
-    split.
-    - now rewrite (latest_id_spec c U HU _ _ _ W), (latest_id_spec c U HU _ _ _ W').
-    - now rewrite (latest_hash_spec c U HU _ _ _ W), (latest_hash_spec c U HU _ _ _ W').
+    split; [now rewrite (latest_id_spec c U HU _ _ _ W), (latest_id_spec c U HU _ _ _ W')|].
+    split; [now rewrite (latest_hash_spec c U HU _ _ _ W), (latest_hash_spec c U HU _ _ _ W')|].
+    split; congruence.
   Qed.
 
   Theorem rejected_no_trace st b st' r :
@@ -386,42 +392,13 @@ Section Main.
       rewrite (m_split _ _ _ _ _ _ _ _ _ _ M), app_length in Hl. lia.
   Qed.
 
-  (* last_block_id is an upper bound of the reported height (it is NOT the height, see
-     last_hash_stale_witness in ChainCheck.v) *)
-  Definition InvL (st : state) : Prop := exists lcr, InvW c U st lcr /\ tip_id lcr <= last_id st.
-
-  Theorem invl_step st b st' r :
-    InvL st -> In b U -> parent_ok U st b -> add_block c st b = Ok (st', r) -> InvL st'.
+  (* the reported last block IS the tip (0 / 0 for the empty chain) *)
+  Theorem last_is_tip st : Inv c U st ->
+    exists i h, latest_id st = Ok i /\ latest_hash st = Ok h /\ last_id st = i /\ last_hash st = h.
   Proof.
-    intros (lcr & HI & HL) Hb Hp E.
-    destruct (add_block_spec st lcr b HI Hb Hp) as (st1 & r1 & E1 & [C|[C|C]]);
-      rewrite E in E1; injection E1 as <- <-.
-    - destruct C as (_ & _ & ->). now exists lcr.
-    - destruct C as (_ & _ & -> & _). now exists lcr.
-    - destruct C as (_ & _ & newtl & oldb & common & M).
-      pose proof (m_inv _ _ _ _ _ _ _ _ _ _ M) as HI'.
-      destruct (m_last _ _ _ _ _ _ _ _ _ _ M) as [L1 L2].
-      destruct (fork_choice c st lcr b newtl oldb && cand_valid st b newtl).
-      + exists ((b :: newtl) ++ common). split; [exact HI'|]. cbn [app tip_id]. auto.
-      + exists lcr. split; [exact HI'|]. lia.
-  Qed.
-
-  Theorem last_id_bounds_height bs : forall st, InvL st -> orphan_free st bs ->
-    exists st' i, deliver c st bs = Ok st' /\ latest_id st' = Ok i /\ i <= last_id st'.
-  Proof.
-    induction bs as [|b t IH]; intros st HI Hof; cbn [deliver].
-    - destruct HI as (lcr & [W Hre] & HL). exists st, (tip_id lcr). split; [reflexivity|].
-      split; [apply (latest_id_spec c U HU _ _ _ W)|exact HL].
-    - destruct Hof as (Hb & Hp & Hof).
-      assert (HI0 : Inv c U st) by (destruct HI as (lcr & ? & _); now exists lcr).
-      destruct (add_block_total st b HI0 Hb Hp) as (st1 & r1 & E1). rewrite E1 in *. cbn [bind fst].
-      apply IH; [|exact Hof]. eapply invl_step; eauto.
-  Qed.
-
-  Theorem last_id_bounds_height_init bs : orphan_free (init c) bs ->
-    exists st i, deliver c (init c) bs = Ok st /\ latest_id st = Ok i /\ i <= last_id st.
-  Proof.
-    apply last_id_bounds_height. exists []. split; [apply inv_init|]. cbn. lia.
+    intros (lcr & W & _ & L1 & L2). exists (tip_id lcr), (tip_hash lcr).
+    split; [apply (latest_id_spec c U HU _ _ _ W)|]. split; [apply (latest_hash_spec c U HU _ _ _ W)|].
+    auto.
   Qed.
 
   Theorem ledger_is_replay bs : 1 <= 2 * gp_of c -> orphan_free (init c) bs ->
@@ -433,6 +410,7 @@ Section Main.
       /\ utxo st = fold_left apply_block lc []
       /\ (forall id h, lc_hash_at c (ring st) id = Some h <-> chain_index lc id h)
       /\ latest_id st = Ok (tip_id (rev lc)) /\ latest_hash st = Ok (tip_hash (rev lc))
+      /\ last_id st = tip_id (rev lc) /\ last_hash st = tip_hash (rev lc)
       /\ (forall h sb, get_block st h = Some sb ->
             In (h, b_id (s_b sb)) (ri_ent (item_at (ring st) (slot c (b_id (s_b sb))))))
       /\ (forall p e, (p < nslots c)%nat -> In e (ri_ent (item_at (ring st) p)) ->
@@ -461,7 +439,7 @@ Section ForkChoice.
     tip_id lcr - gp_of c < b_id b /\ tip_id lcr < b_id b
     /\ (length oldb < length (b :: newtl))%nat /\ bf_total oldb <= bf_total (b :: newtl).
   Proof.
-    intros [W Hre] Hb E H. unfold fork_choice, longest_spec in H.
+    intros (W & Hre & _) Hb E H. unfold fork_choice, longest_spec in H.
     apply andb_true_iff in H as [H1 H2]. apply N.ltb_lt in H1. split; [exact H1|].
     destruct (ring_empty st) eqn:Ere.
     - pose proof (lcr_nil_of_empty c U _ _ _ W (Hre eq_refl)) as Hn. rewrite Hn in *.
